@@ -993,10 +993,12 @@ ConcurrentTransientHashSet<T, H, E>::begin() noexcept {
   }
   while (ABSL_PREDICT_FALSE(node != nullptr)) {
     iter = node->table.begin();
-    if (iter != node->table.end()) {
-      return {nullptr, iter};
+    auto current = node;
+    // the iterator continues with the tables chained behind the one it starts in
+    node = node->next.load(::std::memory_order_acquire);
+    if (iter != current->table.end()) {
+      return {node, iter};
     }
-    node = _head.next.load(::std::memory_order_acquire);
   }
   return {};
 }
